@@ -56,6 +56,7 @@ class _Tunnel(Interface):
 
     __slots__ = (
         "_connecting",
+        "_lost_while_connecting",
         "_data_endpoint_addr",
         "_disconnecting",
         "_heartbeat",
@@ -95,6 +96,7 @@ class _Tunnel(Interface):
         self.cemi_received_callback = cemi_received_callback
         self._data_endpoint_addr: tuple[str, int] | None = None
         self._connecting = False
+        self._lost_while_connecting = False
         self._disconnecting = False
         self._heartbeat = ConnectionHeartbeat(
             name="Tunnel",
@@ -139,6 +141,7 @@ class _Tunnel(Interface):
         """
         self._disconnecting = False
         self._connecting = True
+        self._lost_while_connecting = False
         self.xknx.connection_manager.connection_state_changed(
             XknxConnectionState.CONNECTING, self.connection_type
         )
@@ -152,6 +155,9 @@ class _Tunnel(Interface):
                 # close the channel the server has just opened for us
                 await self._disconnect_request()
                 raise CommunicationError("Disconnected while connecting")
+            if self._lost_while_connecting:
+                # eg. a DisconnectRequest behind the ConnectResponse in the same TCP segment
+                raise CommunicationError("Connection lost while connecting")
         except (OSError, CommunicationError) as ex:
             logger.debug(
                 "Could not establish connection to KNX/IP interface. %s: %s",
@@ -187,6 +193,7 @@ class _Tunnel(Interface):
             return
         if self._connecting:
             # a pending `connect()` has no tunnel to lose - it reports the failure itself
+            self._lost_while_connecting = True
             return
         if self.auto_reconnect:
             # the connection is gone - no heartbeat until the reconnect task runs
